@@ -11,11 +11,15 @@ REQUIRED_THEOREMS = ['Usid.C17.split_join', 'Usid.C17.layout', 'Usid.C17.no_over
                      'Usid.C17.no_temp_left']
 RULE = ('generator datasets of integer-valued real data (int32 / float32 / float64), any dimension counts, sizes and '
         'storage orders; default and explicit output paths (including one named temp.csv), pre-existing output files, '
-        'a user file called temp.csv in the working directory, force in {F,T}, an oversized (never written) dataset; '
+        'a user file called temp.csv in the working directory, force in {F,T}, oversized (never written) datasets just above 15 MiB, between 15 and 16 MiB, at 16 MiB '
+        'and beyond; the file-system model (written / skipped / refused, files afterwards) compared on every case; '
         'each call runs in a fresh working directory; the written file is parsed with Python\'s csv module and compared '
         'cell by cell; non-trivial = P != Q or a pre-existing file is involved')
 TRUSTED = ['numeric formatting (numpy savetxt "%.18e", str(np.float32)) is runtime behaviour: numeric cells are compared '
            'after parsing (value * 4 as an integer), never as strings']
+
+
+OVERSIZE_N = [1966081, 1966100, 2000000, 2031616, 2097151, 2097152, 2200000]
 
 
 def generate(seed, tier):
@@ -27,10 +31,16 @@ def generate(seed, tier):
             ds = gen.gen_dataset(rng, max_dims=3, max_size=4, dtypes=('f8', 'f4', 'i4'), long_prob=0.1)
             if gen.n_points(ds['pos']) * gen.n_points(ds['spec']) <= 300:
                 break
-        cases.append({'ds': ds, 'path': rng.choice(['default', 'default', 'explicit', 'explicit', 'temp.csv', 'sub/out.csv']),
-                      'preexisting': rng.random() < 0.3, 'user_temp': rng.random() < 0.25,
-                      'force': rng.random() < 0.4, 'oversize': i % 25 == 24,
-                      'view': rng.choice(['file', 'file', 'sorted', 'toggled'])})
+        case = {'ds': ds, 'path': rng.choice(['default', 'default', 'explicit', 'explicit', 'temp.csv', 'sub/out.csv']),
+                'preexisting': rng.random() < 0.3, 'user_temp': rng.random() < 0.25,
+                'force': rng.random() < 0.4, 'oversize': i % 12 == 11,
+                'view': rng.choice(['file', 'file', 'sorted', 'toggled'])}
+        if case['oversize']:
+            # float64 elements: 15 MiB = 1966080 of them; just above the limit, between 15 and 16 MiB, at 16 MiB, beyond
+            case['oversize_n'] = rng.choice(OVERSIZE_N)
+            if case['oversize_n'] != 2200000 or rng.random() < 0.6:
+                case['force'] = False          # a forced export of such a dataset writes ~90 MB: only a few of them
+        cases.append(case)
     return cases
 
 
@@ -45,17 +55,15 @@ def run_impl(inp, work):
     with h5py.File(h5path, 'w') as f:
         g = f.create_group('G')
         if inp['oversize']:
-            n, m = gen.n_points(ds['pos']), gen.n_points(ds['spec'])
-            big = g.create_dataset('main', shape=(n, m * 0 + m), dtype=np.float64)    # replaced below
-            del g['main']
-            ds = dict(ds, spec={'sizes': [2200000], 'rate': [0], 'labels': ['SX'], 'units': ['u'], 'values': [list(range(2200000))]},
+            big_n = inp.get('oversize_n', 2200000)
+            ds = dict(ds, spec={'sizes': [big_n], 'rate': [0], 'labels': ['SX'], 'units': ['u'], 'values': [[]]},
                       pos={'sizes': [1], 'rate': [0], 'labels': ['PX'], 'units': ['u'], 'values': [[0]]})
-            h5 = g.create_dataset('main', shape=(1, 2200000), dtype=np.float64)
+            h5 = g.create_dataset('main', shape=(1, big_n), dtype=np.float64)
             h5.attrs['quantity'] = 'q'
             h5.attrs['units'] = 'u'
             pi, pv = gen.write_anc(g, 'Position', ds['pos'], False)
-            si = g.create_dataset('Spectroscopic_Indices', shape=(1, 2200000), dtype=np.uint32)
-            sv = g.create_dataset('Spectroscopic_Values', shape=(1, 2200000), dtype=np.float32)
+            si = g.create_dataset('Spectroscopic_Indices', shape=(1, big_n), dtype=np.uint32)
+            sv = g.create_dataset('Spectroscopic_Values', shape=(1, big_n), dtype=np.float32)
             for d in (si, sv):
                 d.attrs['labels'] = np.array(['SX'], dtype='S')
                 d.attrs['units'] = np.array(['u'], dtype='S')
@@ -87,6 +95,7 @@ def run_impl(inp, work):
         return out
     before = listing()
     with h5py.File(h5path, 'r') as f:
+        nbytes = int(f['G/main'].dtype.itemsize) * int(np.prod(f['G/main'].shape))
         u = USIDataset(f['G/main'], sort_dims=(inp.get('view') == 'sorted'))
         if inp.get('view') == 'toggled':
             u.toggle_sorting()
@@ -94,7 +103,7 @@ def run_impl(inp, work):
         pos_desc = [str(x) for x in u.pos_dim_descriptors]
         spec_desc = [str(x) for x in u.spec_dim_descriptors]
     after = listing()
-    res = {'preexisting': inp['preexisting'], 'before': before, 'after': after, 'target': os.path.relpath(target, work), 'pos_desc': pos_desc, 'spec_desc': spec_desc}
+    res = {'bytes': nbytes, 'force': inp['force'], 'preexisting': inp['preexisting'], 'before': before, 'after': after, 'target': os.path.relpath(target, work), 'pos_desc': pos_desc, 'spec_desc': spec_desc}
     if r[0] == 'err':
         res['outcome'] = {'err': r[1], 'cls': r[2]}
     elif r[1] is None:
@@ -210,26 +219,36 @@ def nontrivial(inp, obs):
 
 
 def model_requests_obs(inp, obs):
+    # the file-system model: which files exist afterwards, and whether the call wrote, skipped or refused
+    fs = {'op': 'csv.fs', 'files': sorted(obs['before'].keys()), 'output': obs['target'], 'tmp': '__scratch__',
+          'bytes': obs['bytes'], 'force': bool(obs['force'])}
     if inp['oversize'] or 'table' not in obs:
-        return []
+        return [fs]
     if _dims_gt_points_sorted(inp, obs, 'layout'):
-        return []            # known finding D5a: the oracle reports it; the table model has no notion of the view
+        return [fs]          # known finding D5a: the oracle reports it; the table model has no notion of the view
     exp = _expected_table(inp, obs)
     ds = inp['ds']
     P, Q = len(ds['pos']['sizes']), len(ds['spec']['sizes'])
     m = gen.n_points(ds['spec'])
-    return [{'op': 'csv.lines', 'spec_desc': obs['spec_desc'], 'pos_desc': obs['pos_desc'],
+    return [fs, {'op': 'csv.lines', 'spec_desc': obs['spec_desc'], 'pos_desc': obs['pos_desc'],
              'spec_vals': [row[P:] for row in exp[:Q]],
              'pos_vals': [row[:P] for row in exp[Q + 1:]], 'data': [row[P:] for row in exp[Q + 1:]]}]
 
 
 def model_compare(inp, obs, resp):
-    if not resp:
-        return []
-    model = [[('DASH' if c.startswith('-----') else c) for c in row] for row in resp[0]]
-    if model != _canon_table(inp, obs):
-        return ['parsed table differs between the model\'s lines and the written file']
-    return []
+    notes = []
+    o = obs['outcome']
+    impl = 'skipped' if o == 'skipped' else ('refused' if isinstance(o, dict) and o.get('cls') == 'FileExistsError'
+                                             else ('wrote:' + o['wrote'] if isinstance(o, dict) and 'wrote' in o else 'error'))
+    if resp[0]['outcome'] != impl:
+        notes.append('to_csv outcome differs: impl %s model %s (bytes %d force %s)' % (impl, resp[0]['outcome'], obs['bytes'], obs['force']))
+    if sorted(set(resp[0]['files'])) != sorted(obs['after'].keys()):
+        notes.append('files afterwards differ: impl %s model %s' % (sorted(obs['after'].keys()), sorted(set(resp[0]['files']))))
+    if len(resp) > 1:
+        model = [[('DASH' if c.startswith('-----') else c) for c in row] for row in resp[1]]
+        if model != _canon_table(inp, obs):
+            notes.append('parsed table differs between the model\'s lines and the written file')
+    return notes
 
 
 def _temp_name(inp, obs, failure):
